@@ -296,6 +296,14 @@ Theorem C09X_hypotheses_satisfiable :
 Proof. exact x_state_reachable. Qed.
 Print Assumptions C09X_hypotheses_satisfiable.
 
+(** ... and the local precommit for that local header then commits height 2 (the Ok branch is inhabited) *)
+Theorem C09X_hypotheses_satisfiable_continued :
+  mstep_panic_site x_state (MActPrecommit [8] (SVote 7 KPrecommit 2 1 [8])) = None /\
+  exists s', mstep x_state (MActPrecommit [8] (SVote 7 KPrecommit 2 1 [8])) = Ok (s', 0, IONone) /\
+             st_nhr (ms_k s') = (3, 0, 2, 1).
+Proof. exact x_state_continues. Qed.
+Print Assumptions C09X_hypotheses_satisfiable_continued.
+
 Theorem C09X_replay_earlier_reachable :
   mreachable_a 1 ex_vs p_round1 /\
   mstep_panic_site p_round1 (MK (XOp (OpReplay (ex_hdr ex_vs ex_vs) (mk_cproof 0 [1] [])))) = Some site_replay_earlier /\
